@@ -301,6 +301,40 @@ static void runtime_type_case(vh_rng* r, int ninst) {
       }
     }
   }
+  /* the same type object declared again (construct in place) now that every lookup above has happened: the second
+     declaration is what every lookup answers from, whatever was looked up, memoised or dispatched under the first */
+  if (vh_chance(r, 50)) {
+    var args2 = new(Tuple);
+    push(args2, $S(name_keep)); push(args2, $I(16));
+    int has2[NDISP]; uint32_t masks2[NDISP]; var inst2[NDISP];
+    for (int d = 0; d < NDISP; d++) {
+      has2[d] = vh_chance(r, 50);
+      masks2[d] = has2[d] ? (uint32_t)vh_below(r, (uint64_t)1 << DISP[d].nmembers) : 0;
+      inst2[d] = has2[d] ? make_instance(*DISP[d].cls, DISP[d].nmembers, DISP[d].fns, masks2[d]) : NULL;
+      if (has2[d]) { push(args2, inst2[d]); }
+    }
+    VH_CATCH(construct_with(type, args2), exc);
+    if (exc) { vh_violation(K("runtime-type:redeclaration-raised"), "construct on a run-time type in use raised %s", vh_exc_name(exc)); return; }
+    for (int pass = 0; pass < 2; pass++) {
+      for (int d = 0; d < NDISP; d++) {
+        vh_evals(3);
+        var ti = type_instance(type, *DISP[d].cls), oi = instance(obj, *DISP[d].cls);
+        if (ti != inst2[d] || oi != inst2[d] || type_implements(type, *DISP[d].cls) != (has2[d] != 0)) {
+          vh_violation(K("runtime-type:lookup-answers-from-the-replaced-declaration"), "after the type was declared again, class %s (first declaration: %s, second: %s) resolves to %s (%s pass)", raw_name(*DISP[d].cls),
+            has[d] ? "declared" : "absent", has2[d] ? "declared" : "absent", ti == NULL ? "nothing" : ti == inst2[d] ? "the new instance at type level only" : "another instance", pass ? "warm" : "cold");
+        }
+        int k = DISP[d].first_stub;
+        int present = has2[d] && (masks2[d] & 1);
+        if (k == 4 && !present) { continue; }
+        long b0 = stub_calls[k];
+        VH_CATCH(call_dispatcher(k, obj), exc);
+        if (present ? (exc != NULL || stub_calls[k] - b0 != 1) : (exc != ClassError || stub_calls[k] != b0)) {
+          vh_violation(K("runtime-type:dispatch-follows-the-replaced-declaration"), "after the type was declared again, dispatcher %d (member %s now) gave %s and ran the stub %ld times", k, present ? "declared" : "missing", vh_exc_name(exc), stub_calls[k] - b0);
+        }
+      }
+    }
+    vh_count("runtime_types_declared_again_after_their_lookups");
+  }
   vh_count("runtime_types");
   if (nd >= 200) { vh_count("runtime_types_with_200_or_more_instances"); }
   if (nd == 0) { vh_count("runtime_types_with_no_instance"); }
